@@ -127,12 +127,12 @@ func genC13(seed uint64, index int, tier string) *run.Plan {
 	}
 	nf := g.Intn(4)
 	for i := 0; i < nf; i++ {
-		k := []string{"close", "reset", "blackhole", "refuse", "nopong", "down", "down"}[g.Intn(7)]
+		k := []string{"close", "reset", "blackhole", "refuse", "nopong", "down", "down", "hsstall"}[g.Intn(8)]
 		f := run.Fault{Kind: k, Host: g.Intn(ns), AtMs: g.Intn(total + 1)}
 		switch k {
 		case "close":
 			f.A = g.Intn(3)
-		case "refuse", "nopong", "down":
+		case "refuse", "nopong", "down", "hsstall":
 			f.A = []int{2000, 12000, 40000}[g.Intn(3)]
 		}
 		p.Faults = append(p.Faults, f)
@@ -329,6 +329,7 @@ func execC13(t *testing.T, w *core.World, p *run.Plan, r *run.Result) {
 
 	var ops []*c13op
 	var doOp func(o *c13op)
+	callerGids := map[uint64]bool{}
 	reactiveN := 0
 	// ---- refresh judging ----
 	type refresh struct {
@@ -523,6 +524,7 @@ func execC13(t *testing.T, w *core.World, p *run.Plan, r *run.Result) {
 
 	lastHeads := map[int]uint32{}
 	prevBest, prevBestHead, prevStep := -1, uint32(0), -1
+	var bestSwitches []time.Duration // instants (quiescent points) at which the pool's best connection was seen to have changed
 	badSince, l4Reported := time.Duration(-1), false
 	// W5 tolerates stalls of the waiting goroutines themselves (a descheduled caller still has to be told or to
 	// find the head when it subscribes); a stalled Run / connection goroutine legitimately delays notifications
@@ -588,6 +590,9 @@ func execC13(t *testing.T, w *core.World, p *run.Plan, r *run.Result) {
 				}
 			}
 			mu.Unlock()
+		}
+		if prevStep >= 0 && snap.BestID != prevBest {
+			bestSwitches = append(bestSwitches, now)
 		}
 		prevBest, prevBestHead, prevStep = snap.BestID, bestHead, w.Steps
 		// L4 (bounded liveness of the refresh): the best connection is dead or more than two blocks behind while
@@ -719,6 +724,25 @@ func execC13(t *testing.T, w *core.World, p *run.Plan, r *run.Result) {
 					c.Blackhole(150 * time.Second)
 				}
 			})
+		case "hsstall":
+			// the server hangs: its connections are reset, new ones are accepted at the TCP level but never served
+			// (no handshake answer) until it restarts and resets them
+			end = at + time.Duration(f.A)*time.Millisecond
+			w.AtAbs(at, fmt.Sprintf("fault srv%d accepts but does not answer", hi), func() {
+				hosts[hi].AcceptStall = true
+				for _, c := range hostConns(hi) {
+					servers[hi].DropConn(c)
+					c.Reset()
+				}
+			})
+			w.AtAbs(end, fmt.Sprintf("srv%d restarts", hi), func() {
+				hosts[hi].AcceptStall = false
+				for _, c := range w.Net.Ordered() {
+					if c.Host.Index == hi && c.Alive() && c.Stalled() {
+						c.Reset()
+					}
+				}
+			})
 		case "down":
 			// the server goes away for a while: its connections are reset and it cannot be dialled until it is back
 			end = at + time.Duration(f.A)*time.Millisecond
@@ -769,6 +793,7 @@ func execC13(t *testing.T, w *core.World, p *run.Plan, r *run.Result) {
 		ctx := context.Background()
 		gid := core.Gid()
 		mu.Lock()
+		callerGids[gid] = true
 		delete(subAt, gid)
 		o.subAt = -1
 		o.started, o.start, o.callStep = true, w.Now(), w.StepNow()
@@ -867,6 +892,14 @@ func execC13(t *testing.T, w *core.World, p *run.Plan, r *run.Result) {
 	// ---- drain: faults stop, servers healthy and caught up, fair scheduling; then probes (W4) ----
 	for i := range servers {
 		hosts[i].Refuse = false
+		if hosts[i].AcceptStall {
+			hosts[i].AcceptStall = false
+			for _, c := range w.Net.Ordered() {
+				if c.Host.Index == i && c.Alive() && c.Stalled() {
+					c.Reset()
+				}
+			}
+		}
 		frozen[i] = false
 		servers[i].Beh.NoPong = false
 		servers[i].Beh.HoldInfoMs = 0
@@ -897,6 +930,23 @@ func execC13(t *testing.T, w *core.World, p *run.Plan, r *run.Result) {
 	}
 	_ = lastDrainBlock
 	w.Run(func() bool { return false }, w.Steps+120000, drainStart+drain)
+	// G: every call has returned: a goroutine of the library that one of the calls started and that is still there long
+	// after is a part of that call that never ended (two or more of a kind: a leak per call)
+	if !p.Free {
+		mu.Lock()
+		orphans := core.BubbleOrphans(callerGids)
+		mu.Unlock()
+		var fns []string
+		for fn := range orphans {
+			fns = append(fns, fn)
+		}
+		sort.Strings(fns)
+		for _, fn := range fns {
+			if orphans[fn] >= 2 {
+				w.Violate("C13.G", "C13.G|goroutine-leak|"+fn[strings.LastIndex(fn, "/")+1:], fmt.Sprintf("%d goroutines started by calls that have all returned are still there %v after the last fault: %s", orphans[fn], drain, fn))
+			}
+		}
+	}
 	// L3 (bounded liveness of the choice): faults stopped `drain` ago (several refresh periods), every server is
 	// healthy and current: the best connection must be alive and not more than two blocks behind
 	if !p.Free {
@@ -1039,7 +1089,19 @@ func execC13(t *testing.T, w *core.World, p *run.Plan, r *run.Result) {
 						stalledAtDeadline = true
 					}
 				}
-				if o.reached && o.reachedAt < trueDeadline-time.Millisecond && o.end <= trueDeadline && !cancelledBeforeSubscribed && !stalledAtDeadline {
+				// ... and "the best connection" has to be one connection from its report to the end of the call: a
+				// refresh that moves on between the report and its delivery drops the report (it is no longer the
+				// best connection's), and the property does not say which of the two the waiter is owed
+				switchedAfter := false
+				for _, t := range bestSwitches {
+					if t >= o.reachedAt && t <= o.end {
+						switchedAfter = true
+					}
+				}
+				if switchedAfter && o.reached {
+					w.Probe("head-reported-then-best-switched-before-the-call-ended")
+				}
+				if o.reached && o.reachedAt < trueDeadline-time.Millisecond && o.end <= trueDeadline && !cancelledBeforeSubscribed && !stalledAtDeadline && !switchedAfter {
 					w.Violate("C13.W5", "C13.W5|missed-head", fmt.Sprintf("%s for seqno %d: the best connection reported a head at or beyond it at %v (the call was pending since %v, subscribed at %v, deadline %v), yet the call returned %q", name, o.seqno, o.reachedAt, o.start, o.subAt, trueDeadline, o.err))
 				}
 				if o.cancelAt > 0 && o.cancelAt <= o.start+o.timeout {
@@ -1051,6 +1113,11 @@ func execC13(t *testing.T, w *core.World, p *run.Plan, r *run.Result) {
 				// (a server that sits on masterchain-info requests delays the first head, and every re-synchronisation
 				// after a failed block wait, by that much: not calm)
 				infoUsable := p.Get("hold_info_ms", 0) == 0
+				for _, f := range p.Faults {
+					if f.Kind == "freeze" {
+						infoUsable = false // a server that stops applying blocks for a while is not calm either
+					}
+				}
 				// The call must see heads flow: from the later of its start and the production of the target block, the
 				// chain keeps producing for two intervals + refresh period + lag (a best connection that is switched to
 				// with the awaited head already stored says nothing until its next block; during a pause that is long)
